@@ -130,6 +130,9 @@ def run(chk, w):
     cf = P.functions.get("vf_canary_prefix_match")
     chk.canary("prefix_compare_detected", cf is not None and any(c.callee in PREFIX_COMPARES for c in cf.calls()))
 
+    # ---- DIR
+    dir_rule(chk, P, "C09-DIR")
+
     # ---- SPD: the speed magnitude handed to the encoder leaves room for the +1 offset below the direction bit
     chk.rule("C09-SPD", "every speed magnitude handed to the DCC speed encoder is within 0..mask-1 (out-of-range speeds are rejected before), so the direction bit is never disturbed")
     E = intervals.Engine(w, set())
@@ -342,6 +345,64 @@ def _speed_codec(P):
     if not masks or not any(d_ == masks[0] + 1 for d_ in dirbits):
         raise AnalysisBroken("speed byte layout not recognised (mask %s, direction bit %s)" % (masks, sorted(set(dirbits))))
     return enc, masks[0]
+
+
+def dir_rule(chk, P, rid):
+    """shared with C07: the tracked direction of a train comes from the direction bit of the DCC speed byte.  The decoder maps both stop codes of
+    either direction to 0, so a direction derived from the sign of the *decoded* speed is wrong whenever the train stands still."""
+    chk.rule(rid, "the tracked direction flag is never computed from the decoded (signed) speed: at speed 0 the sign carries no direction, only the speed byte's direction bit does")
+    dec = P.functions.get("bidib_dcc_speed_to_lib_format")
+    if dec is None:
+        raise AnalysisBroken("speed decoder not found")
+    enc, mask = _speed_codec(P)
+    n = 0
+    for f in P.repo_functions():
+        if not f.blocks or not f.relfile.startswith(("src/state/", "src/highlevel/", "src/lowlevel/")):
+            continue
+        for s in f.all_insts():
+            if s.op != "store" or s["ptr"].get("k") != "inst":
+                continue
+            fp = rules.field_path_of_ptr(P, f, s["ptr"])
+            if not fp or not fp.endswith("is_forwards") or rules.const_of(f, s["val"]) is not None:
+                continue
+            n += 1
+            hit = _tree_find(f, s["val"], lambda i: i.op == "call" and i.callee == dec.name)
+            if hit is not None:
+                chk.violation(rid, f.name, fp, s.loc(), "%s is computed from the result of %s (line %d): for a stopped train the decoded speed is 0 in both directions, "
+                              "so the direction of a reversed train flips to forwards when it stops" % (fp.split(".")[-1], dec.name, hit.line))
+            else:
+                bit = _tree_find(f, s["val"], lambda i: any(rules.const_of(f, i[k_]) in (mask + 1, mask) for k_ in ("a", "b") if k_ in i.d and isinstance(i[k_], dict))
+                                 or (i.op in ("lshr", "ashr") and rules.const_of(f, i["b"]) == mask.bit_length()))
+                chk.ok(rid, 1, {"store": s.loc(), "from": "direction bit 0x%02x of the speed byte" % (mask + 1) if bit is not None else "a value that does not pass through the decoder"})
+    chk.floor(rid.lower().replace("-", "_") + "_stores", n, 1)
+
+
+def _tree_find(f, o, pred, depth=0, seen=None):
+    """an instruction of the operand's expression tree (through single-assignment locals, casts, arithmetic, phis) that satisfies pred"""
+    seen = set() if seen is None else seen
+    if o.get("k") != "inst" or depth > 10 or o["id"] in seen:
+        return None
+    seen.add(o["id"])
+    o2 = rules.resolve_local(f, o)
+    if o2 != o:
+        return _tree_find(f, o2, pred, depth + 1, seen)
+    i = f.insts[o["id"]]
+    if pred(i):
+        return i
+    if i.op == "phi":
+        for (_, v) in i["incoming"]:
+            r = _tree_find(f, v, pred, depth + 1, seen)
+            if r is not None:
+                return r
+        return None
+    if i.op == "call":
+        return None
+    for k_ in ("a", "b", "c"):
+        if k_ in i.d and isinstance(i[k_], dict):
+            r = _tree_find(f, i[k_], pred, depth + 1, seen)
+            if r is not None:
+                return r
+    return None
 
 
 def _calibration_length(P):
